@@ -17,14 +17,6 @@ type stats struct {
 	lifetimeConnections uint64
 }
 
-func (s *stats) incrementConnections() {
-	defer s.logServerStats()
-	s.mutex.Lock()
-	s.currentConnections++
-	s.lifetimeConnections++
-	s.mutex.Unlock()
-}
-
 func (s *stats) decrementConnections() {
 	defer s.logServerStats()
 	s.mutex.Lock()
@@ -53,14 +45,19 @@ func (s *stats) logServerStats() {
 	dlog.Server.Mapreduce("STATS", data)
 }
 
-func (s *stats) serverLimitExceeded() error {
+// Take a connection slot for an accepted connection, unless all slots are taken.
+func (s *stats) tryIncrementConnections() error {
 	s.mutex.Lock()
-	defer s.mutex.Unlock()
-
 	if s.currentConnections >= config.Server.MaxConnections {
+		s.mutex.Unlock()
 		return fmt.Errorf("Exceeded max allowed concurrent connections of %d",
 			config.Server.MaxConnections)
 	}
+	s.currentConnections++
+	s.lifetimeConnections++
+	s.mutex.Unlock()
+
+	s.logServerStats()
 	return nil
 }
 
